@@ -695,3 +695,58 @@ Proof.
   Transparent sN. unfold sN at 1. rewrite T. fold (sN id). Opaque sN.
   destruct (sN_nonempty id) as [c [s' E]]. rewrite E. reflexivity.
 Qed.
+
+Definition cmd_fn_text (command : string) (id : N) (body : string) : string :=
+  append (append "_" (append command (append (append "_cmd_" (sN id)) " () {")))
+         (append nl (append "    " (append body (append nl (append "}" (append nl nl)))))).
+
+Lemma blank_line_scan cmd k rest : scan (S k) Bash cmd (append nl rest) = scan k Bash cmd rest.
+Proof.
+  pose proof (scan_lines_sem cmd [EmptyString] [None]) as H.
+  assert (L : line_sem cmd EmptyString None) by (split; [reflexivity | split; [intros r; reflexivity | exact I]]).
+  specialize (H (Forall2_cons _ _ L (Forall2_nil _)) k rest). exact H.
+Qed.
+
+Lemma scan_unfold k cmd s :
+  scan (S k) Bash cmd s =
+  match s with
+  | EmptyString => []
+  | _ =>
+      match bash_stmt s with
+      | Some (SFunc n, r) =>
+          if is_cmd_fn cmd n then
+            match read_body Bash r with
+            | Some (b, r') => SFunc n :: SBody b :: SEnd :: scan k Bash cmd r'
+            | None => SFunc n :: scan k Bash cmd r
+            end
+          else SFunc n :: scan k Bash cmd r
+      | Some (st, r) => st :: scan k Bash cmd r
+      | None => let (_, r) := line s in scan k Bash cmd r
+      end
+  end.
+Proof. reflexivity. Qed.
+
+Lemma cmd_fn_scans command id body :
+  name_ok command -> body_ok body ->
+  scans command 2 (cmd_fn_text command id body)
+        [SFunc (append "_" (append command (append "_cmd_" (sN id)))); SBody body; SEnd].
+Proof.
+  intros Hc Hb. split; [unfold cmd_fn_text; rewrite !length_app; cbn [String.length]; lia|].
+  intros k rest. unfold cmd_fn_text.
+  assert (Hsuf : forallb is_name_char (list_ascii_of_string ("_cmd_" ++ sN id)%string) = true)
+    by (apply (name_chars_app "_cmd_"); [reflexivity | apply name_chars_sN]).
+  assert (Hsnl : no_nl ("_cmd_" ++ sN id)%string = true) by (rewrite no_nl_app, no_nl_sN; reflexivity).
+  destruct (header_reads command ("_cmd_" ++ sN id)%string Hc Hsuf Hsnl) as [_ Hrd].
+  set (hdr := ("_" ++ command ++ ("_cmd_" ++ sN id) ++ " () {")%string) in *.
+  set (R := ("    " ++ body ++ nl ++ "}" ++ nl ++ nl)%string).
+  rewrite (append_assoc hdr). rewrite (append_assoc nl R rest).
+  change (2 + k)%nat with (S (S k)). rewrite scan_unfold.
+  destruct (hdr ++ nl ++ R ++ rest)%string eqn:E; [destruct hdr; discriminate E|]. rewrite <- E. clear E.
+  rewrite Hrd, is_cmd_fn_true.
+  unfold read_body, R. rewrite !append_assoc. rewrite strip_app.
+  rewrite <- (append_assoc body nl), <- (unlines_split body).
+  rewrite (body_lines_unlines (split_nl body) (nl ++ rest)%string (split_nl_no_nl body) Hb).
+  - rewrite join_lines_join, join_split_nl, blank_line_scan. reflexivity.
+  - rewrite unlines_split. rewrite !length_app. pose proof (length_unlines_ge (split_nl body)) as L.
+    rewrite unlines_split, length_app in L. change (String.length nl) with 1%nat in *. lia.
+Qed.
